@@ -21,6 +21,3 @@ func Run(id, tier string) int {
 	return rep.Finish()
 }
 
-func WorkerMain(args []string) { os.Exit(2) }
-
-func Replay(file string) int { return 2 }
